@@ -35,6 +35,9 @@ def tasks(tier):
             for signed in (0, 1):
                 ts.append(Task('verifHarness_C01_v2_smallbuf', [n, signed]))
             ts.append(Task('verifHarness_C01_v1_smallbuf', [n]))
+        if tier != 'quick' or n in (0, 3, 253, 254, 255):
+            for kind in (0, 1, 2):
+                ts.append(Task('verifHarness_C01_other_outversion', [n, kind]))
     if tier != 'quick':
         # every cut point for a few lengths
         for n in (0, 1, 7):
@@ -46,7 +49,7 @@ def tasks(tier):
 
 
 def required_reach(tier):
-    return ['C01/v1', 'C01/v2', 'C01/refuse', 'C01/v2s', 'C01/v1s']
+    return ['C01/v1', 'C01/v2', 'C01/refuse', 'C01/v2s', 'C01/v1s', 'C01/ov']
 
 
 def bounds(tier):
@@ -59,6 +62,8 @@ def bounds(tier):
                            + ('' if tier == 'quick' else '; every cut point for payload lengths 0, 1, 7'),
         'caller_supplied_bufio': 'v1 and v2 round trip through Reader.BufByteReader = bufio.NewReaderSize(r, 16) (smallest bufio buffer), payload lengths '
                                  + ('0,1,3,128,255' if tier == 'quick' else '0..255') + ', unsigned and signed',
+        'writer_set_to_the_other_version': 'Writer.OutVersion = V1 given v2 / signed v2 frames and OutVersion = V2 given v1 frames: full spec bytes, payload lengths '
+                                           + ('0,3,253,254,255' if tier == 'quick' else '0..255'),
         'dialect': 'none (raw messages); the with-dialect round trip is covered by C02/C08/C09 harnesses',
     }
 
